@@ -259,12 +259,13 @@ Proof. intros k p l H K. destruct p; cbn in *; try congruence; destruct k; cbn; 
 (* a step of an operation on tract a leaves every other tract's lock entry, map entry and file alone *)
 Lemma step_frame : forall V g o p l inj g' p' l' b,
     step V g o p l inj = Some (g', p', l') -> b <> o_tract o ->
-    get b (g_busy g') = get b (g_busy g) /\ get b (g_tracts g') = get b (g_tracts g) /\ get b (g_files g') = get b (g_files g).
+    get b (g_busy g') = get b (g_busy g) /\ get b (g_tracts g') = get b (g_tracts g) /\ get b (g_files g') = get b (g_files g) /\
+    get b (g_gens g') = get b (g_gens g).
 Proof.
   intros V g o p l inj g' p' l' b H N.
   destruct p; unfold step, rm_cont, create_cont, do_close, try_lock_once, unlock in H;
     destruct (o_kind o) eqn:K; dmh;
-    cbn [g_busy g_tracts g_files with_busy with_tracts with_files opened_one closed_one created_file];
+    cbn [g_busy g_tracts g_files g_gens with_busy with_tracts with_files opened_one closed_one created_file];
     rewrite ?get_set_other, ?get_del_other by auto; auto.
 Qed.
 
